@@ -94,6 +94,15 @@ def run_property(prop, tier, seed):
     # ---- Coq side
     audit = C.audit_sources()
     pr = C.coqc_props(pid)
+    # further statement files this property relies on (e.g. the engine-to-spec refinement)
+    for extra in getattr(prop, "extra_props", []):
+        pe = C.coqc_props(extra)
+        pr["theorems"] = pr.get("theorems", []) + ["%s.%s" % (extra, t) for t in pe.get("theorems", [])]
+        pr["closed"] = pr.get("closed", []) + ["%s.%s" % (extra, t) for t in pe.get("closed", [])]
+        pr["open"] = dict(pr.get("open", {}), **{"%s.%s" % (extra, k): v for k, v in pe.get("open", {}).items()})
+        if not pe["ok"]:
+            pr["ok"] = False
+            pr["output"] = (pr.get("output", "") + "\n" + pe.get("output", ""))[-3000:]
     proof_absent = bool(pr.get("missing"))   # theorem file not written yet: evidence says so, level drops
     proof_ok = (not audit) and (pr["ok"] or proof_absent)
     proof_problem = None
